@@ -530,7 +530,12 @@ theorem run_eq (cfg : Cfg) (limit : Nat) (d : Doc) (input : List Byte) :
       (finalCode (stop cfg limit d input).1 (stop cfg limit d input).2,
         { preShrink cfg limit d input with
           pl := PL.shrink (preShrink cfg limit d input).g (preShrink cfg limit d input).pl },
-        (stop cfg limit d input).2.s.l.pos) := rfl
+        (stop cfg limit d input).2.s.l.pos) := by
+  unfold run preShrink stop start
+  dsimp only
+  generalize parseVariant cfg (2 * input.length + 4) limit .root _ = r
+  obtain ⟨c, x⟩ := r
+  rfl
 
 theorem finalCode_ok {c : Code} {x : S} (h : finalCode c x = .ok) : c = .ok := by
   cases c <;> first | rfl | exact absurd h (by simp [finalCode])
